@@ -15,7 +15,7 @@ use std::time::Instant;
 struct Config {
     name: &'static str,
     sigs: Vec<Sig>,
-    header: Vec<&'static str>,
+    header: Vec<String>,
     /// entry menu per header column
     menus: Vec<Vec<Entry>>,
     /// adjacent column pairs that are additionally written as bits(2,k)
@@ -47,7 +47,7 @@ fn configs(tier: Tier) -> Vec<Config> {
         Config {
             name: "i: header in signal-list order",
             sigs: base.clone(),
-            header: vec!["CLK", "A", "B", "W", "Q"],
+            header: vec!["CLK".to_string(), "A".to_string(), "B".to_string(), "W".to_string(), "Q".to_string()],
             menus: vec![one_bit_in(), one_bit_in(), one_bit_in(), wide_in(), exp()],
             bits_pairs: vec![0, 1],
             answer: vec![("Q".into(), V::Num(5))],
@@ -56,7 +56,7 @@ fn configs(tier: Tier) -> Vec<Config> {
         Config {
             name: "ii: header permuted, one input omitted, signal list in another order",
             sigs: vec![base[4].clone(), base[0].clone(), base[2].clone(), base[1].clone(), base[3].clone()],
-            header: vec!["W", "Q", "A", "CLK"],
+            header: vec!["W".to_string(), "Q".to_string(), "A".to_string(), "CLK".to_string()],
             menus: vec![wide_in(), exp(), one_bit_in(), one_bit_in()],
             bits_pairs: vec![2],
             answer: vec![("Q".into(), V::Num(5))],
@@ -65,7 +65,7 @@ fn configs(tier: Tier) -> Vec<Config> {
         Config {
             name: "iii: bidirectional signal with split columns",
             sigs: vec![Sig::bidir("D", 1, V::Z), Sig::inp("CK2", 1, 0), Sig::out("Q", 4), Sig::inp("A", 1, 0)],
-            header: vec!["Q", "A", "D", "D_out", "CK2"],
+            header: vec!["Q".to_string(), "A".to_string(), "D".to_string(), "D_out".to_string(), "CK2".to_string()],
             menus: vec![exp(), one_bit_in(), one_bit_in(), vec![Entry::X, Entry::Z, l(1), Entry::Paren(k())], one_bit_in()],
             bits_pairs: vec![1],
             answer: vec![("D".into(), V::Num(1)), ("Q".into(), V::Num(5))],
@@ -84,12 +84,26 @@ fn configs(tier: Tier) -> Vec<Config> {
                 Sig::inp("W", 4, 3),
                 Sig::out("Q", 4),
             ],
-            header: vec!["C1", "C2", "A", "B", "W", "Q", "R"],
+            header: vec!["C1".to_string(), "C2".to_string(), "A".to_string(), "B".to_string(), "W".to_string(), "Q".to_string(), "R".to_string()],
             menus: vec![one_bit_in(), one_bit_in(), one_bit_in(), one_bit_in(), wide_in(), exp(), exp()],
             bits_pairs: vec![0, 2],
             answer: vec![("R".into(), V::Num(9)), ("Q".into(), V::Num(5))],
             last: vec![l(1), l(0), l(1), l(0), l(2), l(7), l(9)],
         });
+    }
+    {
+        // more than 64 columns: 64 one-bit inputs, then an expected column, an input, an expected column
+        let mut sigs: Vec<Sig> = (0..64).map(|i| Sig::inp(&format!("I{i}"), 1, 0)).collect();
+        sigs.insert(10, Sig::out("Q", 4));
+        sigs.push(Sig::inp("J", 1, 1));
+        sigs.push(Sig::out("R", 4));
+        let mut header: Vec<String> = (0..64).map(|i| format!("I{i}")).collect();
+        header.extend(["Q".to_string(), "J".to_string(), "R".to_string()]);
+        let mut menus: Vec<Vec<Entry>> = (0..64).map(|i| if i == 0 || i == 2 { one_bit_in() } else { vec![l(0)] }).collect();
+        menus.extend([exp(), one_bit_in(), exp()]);
+        let mut last: Vec<Entry> = (0..64).map(|_| l(1)).collect();
+        last.extend([l(7), l(0), l(9)]);
+        v.push(Config { name: "vi: 67 columns (column 64+j must not be confused with column j)", sigs, header, menus, bits_pairs: vec![], answer: vec![("Q".into(), V::Num(5)), ("R".into(), V::Num(9))], last });
     }
     if tier == Tier::Thorough {
         v.push(Config {
@@ -104,7 +118,7 @@ fn configs(tier: Tier) -> Vec<Config> {
                 Sig::inp("B", 1, 0),
                 Sig::inp("C1", 1, 0),
             ],
-            header: vec!["C1", "C2", "A", "B", "E", "W", "Q", "R"],
+            header: vec!["C1".to_string(), "C2".to_string(), "A".to_string(), "B".to_string(), "E".to_string(), "W".to_string(), "Q".to_string(), "R".to_string()],
             menus: vec![one_bit_in(), one_bit_in(), one_bit_in(), one_bit_in(), one_bit_in(), wide_in(), exp(), exp()],
             bits_pairs: vec![1, 3],
             answer: vec![("Q".into(), V::Num(5)), ("R".into(), V::Num(9))],
@@ -131,7 +145,7 @@ pub fn run(tier: Tier, seed: u64) -> i32 {
     let deadline = Deadline::new(tier.wall_cap());
     let mut total = Stats::default();
     for cfg in configs(tier) {
-        let header: Vec<String> = cfg.header.iter().map(|s| s.to_string()).collect();
+        let header: Vec<String> = cfg.header.clone();
         // shape families: 0 = plain menus, 1.. = with one bits(2,k) pair
         let mut families: Vec<(Option<usize>, Vec<u64>)> = vec![(None, cfg.menus.iter().map(|m| m.len() as u64).collect())];
         for &bp in &cfg.bits_pairs {
